@@ -122,6 +122,59 @@ def _arm(draw):
 
 
 @st.composite
+def _skate(draw):
+    """A rigid body with a velocity-level (nonholonomic) constraint supplied by the harness: no velocity along the
+    body-fixed y direction (knife edge), moving along its x direction while turning, pushed sideways by gravity."""
+    b = draw(build.rigid_body(unit=True))
+    return {"kind": "skate", "body": b, "speed": draw(gen.f(-2.0, 2.0)), "spin": [draw(gen.f(-2, 2)) for _ in range(3)],
+            "gravity": [draw(gen.f(-5, 5)), draw(gen.f(-5, 5)), draw(gen.f(-9.81, 0.0))], "reject": None}
+
+
+class KnifeEdge:
+    """gamma = (A_IB e_y) . v_C = 0 on a RigidBody (harness-side contribution, interface as in examples/rolling_disc)."""
+
+    def __init__(self, body, name="knife_edge"):
+        self.subsystem = body
+        self.name = name
+        self.nla_gamma = 1
+        self.la_gamma0 = np.zeros(1)
+
+    def assembler_callback(self):
+        self.qDOF = self.subsystem.qDOF
+        self.uDOF = self.subsystem.uDOF
+
+    def _e(self, t, q):
+        return self.subsystem.A_IB(t, q)[:, 1]
+
+    def gamma(self, t, q, u):
+        return np.array([self._e(t, q) @ u[:3]])
+
+    def gamma_dot(self, t, q, u, u_dot):
+        A = self.subsystem.A_IB(t, q)
+        e_dot = A @ np.cross(u[3:], np.array([0.0, 1.0, 0.0]))
+        return np.array([e_dot @ u[:3] + A[:, 1] @ u_dot[:3]])
+
+    def gamma_u(self, t, q):
+        out = np.zeros((1, 6))
+        out[0, :3] = self._e(t, q)
+        return out
+
+    def W_gamma(self, t, q):
+        return self.gamma_u(t, q).T
+
+    def gamma_q(self, t, q, u):
+        from cardillo.math.approx_fprime import approx_fprime
+        return approx_fprime(q, lambda q_: self.gamma(t, q_, u))
+
+    def gamma_dot_q(self, t, q, u, u_dot):
+        raise NotImplementedError
+
+    def Wla_gamma_q(self, t, q, la_gamma):
+        from cardillo.math.approx_fprime import approx_fprime
+        return approx_fprime(q, lambda q_: self.gamma_u(t, q_).T @ la_gamma)
+
+
+@st.composite
 def _rod_reject(draw):
     rs = draw(rodbuild.rod_spec(max_nel=2))
     rs["constraints"] = draw(st.sampled_from([[0], [0, 1, 2], [1, 2], [0, 1, 2, 3, 4, 5]]))
@@ -130,7 +183,7 @@ def _rod_reject(draw):
 
 
 def strategy(tier):
-    return st.one_of(_chain(), _chain(), _contact(), _contact(), _rod_reject(), _arm())
+    return st.one_of(_chain(), _chain(), _contact(), _contact(), _rod_reject(), _arm(), _skate())
 
 
 # --------------------------------------------------------------------------------------
@@ -193,6 +246,17 @@ def build_system(spec):
         if "actuator" in spec:
             system.add(sysbuild.make_actuator(spec["actuator"], joints[0]))
             info["has_special"] = True
+    elif kind == "skate":
+        bs = dict(spec["body"])
+        A = gen.quat_to_R(np.array(bs["P"], dtype=float))
+        bs["v"] = (spec["speed"] * A[:, 0]).tolist()  # along the blade: gamma = 0
+        bs["omega"] = list(spec["spin"])
+        b = build.make_body(bs, name="skate")
+        system.add(b)
+        system.add(Force(np.array(spec["gravity"]) * bs["mass"], b, name="gravity"))
+        system.add(KnifeEdge(b))
+        info["has_constraint"] = True
+        info["has_special"] = True
     elif kind == "arm":
         from cardillo.discrete import RigidBody
 
@@ -300,6 +364,8 @@ def check(spec):
         terms.append(-D(S.W_tau(t0, q0)) @ S.la_tau(t0, q0, u0))
     if S.nla_g:
         terms.append(-D(S.W_g(t0, q0)) @ la_g)
+    if S.nla_gamma:
+        terms.append(-D(S.W_gamma(t0, q0)) @ S.la_gamma0)
     if S.nla_N:
         terms.append(-D(S.W_N(t0, q0)) @ la_N)
     if S.nla_F:
@@ -322,6 +388,11 @@ def check(spec):
         res.ok()
         if np.max(np.abs(gdd)) > 1e-6 * (1 + np.max(np.abs(ud))):
             res.fail("acceleration_level_constraints", site, float(np.max(np.abs(gdd))), feats)
+    if S.nla_gamma:
+        gmd = S.gamma_dot(t0, q0, u0, ud)
+        res.ok()
+        if np.max(np.abs(gmd)) > 1e-6 * (1 + np.max(np.abs(ud))):
+            res.fail("acceleration_level_constraints", site, float(np.max(np.abs(gmd))), feats, "gamma_dot")
     if S.nla_N:
         gN = S.g_N(t0, q0)
         gNd = S.g_N_dot(t0, q0, u0)
